@@ -473,7 +473,7 @@ func main() {
 	if c.Thorough() {
 		steers = append(steers, "key-lz3", "ga-lz2", "rsa-plain-lz2", "rsa-cipher-lz2")
 	}
-	for rep := 0; rep < c.N(1, 6); rep++ {
+	for rep := 0; rep < c.N(1, 3); rep++ {
 		for i, st := range steers {
 			cf := cfg{Seed: c.Rng.U64(), DC: 2, Steer: st}
 			if (i+rep+int(c.Seed))%2 == 1 {
@@ -483,7 +483,7 @@ func main() {
 		}
 	}
 	dcs := []int{2, 1, 5, 0, -1, 10002, 2147483647, -2147483648}
-	n := c.N(5, 300)
+	n := c.N(5, 60)
 	for i := 0; i < n; i++ {
 		cf := cfg{Seed: c.Rng.U64(), DC: dcs[i%len(dcs)], Jitter: i%3 == 2}
 		if i%2 == 1 {
